@@ -1,7 +1,7 @@
 (* Property C19 - wait_until: the inner future/stream is untouched until the deadline resolves. *)
 From Coq Require Import List Arith Bool.
 Import ListNotations.
-Require Import ScanFull InstsFull Pass C11Groups PassProofs.
+Require Import ScanFull InstsFull Pass C11Groups PassProofs Monitors.
 
 (* child 0 = the deadline, child 1 = the inner future (stream = false) or stream (stream = true).
    [Pw s t]: before the deadline resolved every child poll is (deadline, Pending) and nothing has been returned; afterwards the poll list is
@@ -18,3 +18,11 @@ Example C19_witness :
   let w := wait_world true scs [OPollFresh; OFire 0 0; OPollFresh; OPollFresh] in
   dropped _ w = false /\ results (strip (tr _ w)) = [OSome None [4]; ONone].
 Proof. vm_compute. split; reflexivity. Qed.
+
+(* the same statement as a boolean predicate over the observable trace (wait_b, Proofs/Monitors.v): the function that runner/montool.ml evaluates on
+   every trace of the crate *)
+Theorem C19_gate_predicate_holds stream scs ops :
+  let w := wait_world stream scs ops in
+  dropped _ w = false -> wait_b (strip (tr _ w)) = true.
+Proof. exact (wait_b_holds stream scs ops). Qed.
+Print Assumptions C19_gate_predicate_holds.
